@@ -235,6 +235,40 @@ def r2(ctx, chk):
                        ("dateparser.date:parse_with_formats", r"_get_missing_parts\(\w+\)")):
         f = ix.func(fk)
         calls = [n for n in iter_own_nodes(f.node) if isinstance(n, ast.Call) and _is_filter_call(ctx, f, n, always)]
+        if fk.endswith("_results") and len(calls) == 1 and calls[0].args:
+            # decided by evaluating the statements in front of the call for the eight combinations of present parts
+            import itertools
+            from ..core.minieval import Evaluator, Unknown
+            stmt_i = next((i for i, st_ in enumerate(f.node.body) if any(x is calls[0] for x in ast.walk(st_))), None)
+            wrong = []
+            try:
+                if stmt_i is None:
+                    raise Unknown("the filter call is not a top-level statement")
+                for have in itertools.product((False, True), repeat=3):
+                    present = dict(zip(("day", "month", "year"), have))
+
+                    def oracle(e, env, present=present):
+                        if isinstance(e, ast.Call) and ast.unparse(e.func) == "getattr" and len(e.args) in (2, 3) and ast.unparse(e.args[0]) == "self":
+                            k_ = e.args[1].value if isinstance(e.args[1], ast.Constant) else env.get(getattr(e.args[1], "id", None))
+                            if k_ in present:
+                                return 1 if present[k_] else None
+                        if isinstance(e, ast.Attribute) and isinstance(e.value, ast.Name) and e.value.id == "self" and e.attr in present:
+                            return 1 if present[e.attr] else None
+                        raise Unknown(ast.unparse(e)[:40])
+                    ev_ = Evaluator(oracle)
+                    env = {}
+                    ev_.run([st_ for st_ in f.node.body[:stmt_i] if not (isinstance(st_, ast.Expr) and isinstance(st_.value, ast.Constant))], env)
+                    got = ev_.ev(calls[0].args[0], env)
+                    want = [k_ for k_ in ("day", "month", "year") if not present[k_]]
+                    if sorted(got) != sorted(want):
+                        wrong.append((present, got))
+            except Unknown as e_:
+                chk.error(rule, "%s: the argument of the filter is computed by something this rule cannot evaluate (%s)" % (f.qual, e_))
+                continue
+            chk.ob(rule, "%s hands the filter the parts that are really missing (%s)" % (f.qual, expect), not wrong,
+                   "the filter is called with something else than the computed missing parts: %s" % wrong[:2],
+                   key={"function": fk, "construct": "filter argument"}, file=f.file, function=f.qual, line=f.node.lineno)
+            continue
         ok = False
         for c in calls:
             if c.args and isinstance(c.args[0], ast.Name):
